@@ -15,6 +15,11 @@ def families(tier, seed):
         for vec in (False, True):
             out.append(dict(tag=tag, features=feats, kind="overrides", model=model, ops=ops, vec=vec, seed=seed,
                             share=feats.get("share", True)))
+    m_e = {t: mm for t, f, mm, o in gen.c07_cases()}["U1-single-node-const"]
+    for which in ("base", "variant"):
+        for vec in (False, True):
+            out.append(dict(tag=f"U27-edge-override-on-derived-circuit/{which}", features=dict(derived=True, which=which), kind="derived_edge", model=m_e,
+                            which=which, vec=vec, seed=seed))
     for how in ("update_var", "node_values"):
         for vec in (False, True):
             out.append(dict(tag=f"U26-integer-declared-parameter/{how}", features=dict(int_declared=True, how=how), kind="int_param", how=how, vec=vec))
@@ -43,9 +48,38 @@ def int_param_case(c):
     return dict(status="violated" if fails else "ok", fails=fails)
 
 
+def derived_edge_case(c):
+    """base -> variant = base.update_template(edges=[extra]); variant.update_var(edge weight); the BASE compiles with its own weight."""
+    import numpy as np
+    from rtc import mdl, oracle
+    m = c["model"]
+    base = mdl.build_templates(m)
+    e0 = m["edges"][0]
+    variant = base.update_template(name="variant", edges=[(m["edges"][1]["src"], m["edges"][0]["tgt"], None, {"weight": 0.123})])
+    variant.update_var(edge_vars=[(e0["src"], e0["tgt"], {"weight": 7.0})])
+    if c["which"] == "base":
+        expected, tpl = m, base
+    else:
+        import json
+        expected = json.loads(json.dumps(m))
+        expected["edges"][0]["w"] = 7.0
+        expected["edges"].append(dict(src=m["edges"][1]["src"], tgt=m["edges"][0]["tgt"], w=0.123, d=None, s=None))
+        tpl = variant
+    try:
+        comp = oracle.compile_model(expected, vectorize=c["vec"], tpl=tpl)
+    except Exception as exn:
+        return dict(status="violated", fails=[dict(clause="derived / base circuit compiles", observed=f"{type(exn).__name__}: {exn}")])
+    fails = oracle.check_vector_field(expected, comp, np.random.default_rng(c.get("seed", 0)), n_states=2, n_param_draws=0, vectorized=c["vec"])
+    for f in fails:
+        f["clause"] = f"edge override on a derived circuit ({c['which']} circuit afterwards): " + f["clause"]
+    return dict(status="violated" if fails else "ok", fails=fails[:2])
+
+
 def case_fn(c):
     if c["kind"] == "int_param":
         return int_param_case(c)
+    if c["kind"] == "derived_edge":
+        return derived_edge_case(c)
     return cases.case_fn(c)
 
 
